@@ -135,11 +135,11 @@ static const cons CONS[] = {
       2, { { "detached-nullmaclen", aegis128l_ed_nullp, aegis128l_dd }, { "combined-nulllen", aegis128l_comb_nullp_e, aegis128l_comb_nullp_d } } },
     { "aead_aegis256", 32, 32, 32, 1, 0, 0, 1, always, r_a256, aegis256_e, aegis256_d, aegis256_ed, aegis256_dd,
       2, { { "detached-nullmaclen", aegis256_ed_nullp, aegis256_dd }, { "combined-nulllen", aegis256_comb_nullp_e, aegis256_comb_nullp_d } } },
-    { "secretbox_xsalsa20poly1305", 32, 24, 16, 0, 1, 0, 0, always, r_sbx, sbx_e, sbx_d, sbx_ed, sbx_dd, 1, { { "nacl-zero-padded", sbx_nacl_e, sbx_nacl_d } } },
-    { "secretbox_xchacha20poly1305", 32, 24, 16, 0, 1, 0, 0, always, r_sbc, sbc_e, sbc_d, sbc_ed, sbc_dd, 0, { { NULL, NULL, NULL } } },
-    { "box_curve25519xsalsa20poly1305", 32, 24, 16, 0, 1, 1, 0, always, r_sbx, bx_e, bx_d, bx_ed, bx_dd,
+    { "secretbox_xsalsa20poly1305", 32, 24, 16, 0, 1, 0, 1, always, r_sbx, sbx_e, sbx_d, sbx_ed, sbx_dd, 1, { { "nacl-zero-padded", sbx_nacl_e, sbx_nacl_d } } },
+    { "secretbox_xchacha20poly1305", 32, 24, 16, 0, 1, 0, 1, always, r_sbc, sbc_e, sbc_d, sbc_ed, sbc_dd, 0, { { NULL, NULL, NULL } } },
+    { "box_curve25519xsalsa20poly1305", 32, 24, 16, 0, 1, 1, 1, always, r_sbx, bx_e, bx_d, bx_ed, bx_dd,
       4, { { "detached-afternm", bx_an_ed, bx_an_dd }, { "easy-afternm", bx_ane_e, bx_ane_d }, { "nacl-zero-padded", bx_nacl_e, bx_nacl_d }, { "nacl-afternm", bx_nacl_an_e, bx_nacl_an_d } } },
-    { "box_curve25519xchacha20poly1305", 32, 24, 16, 0, 1, 1, 0, always, r_sbc, bc_e, bc_d, bc_ed, bc_dd,
+    { "box_curve25519xchacha20poly1305", 32, 24, 16, 0, 1, 1, 1, always, r_sbc, bc_e, bc_d, bc_ed, bc_dd,
       2, { { "detached-afternm", bc_an_ed, bc_an_dd }, { "easy-afternm", bc_ane_e, bc_ane_d } } },
 };
 #define NCONS ((int) (sizeof CONS / sizeof CONS[0]))
